@@ -1,6 +1,270 @@
-"""C02 rules (placeholder: fail-closed until the rules are implemented)."""
-from ..loader import AnalysisError
+"""C02 - submission plan: stale cone only, once each, dependencies first, exact prerequisites."""
+import ast
+
+from ..consteval import CantEval, EnumVal, enum_members
+from ..index import dotted, walk_no_nested, loc
+from ..paths import NEXT, Explorer, Semantics, State
+from .schedtable import SCHED, _calls, explore_schedule, rule_decision_table, rule_submit_discipline
+
+
+class DepLoopSem(Semantics):
+    """Body of the dependency loop: under which scheduled statuses of the dependency is it appended to the prerequisite list?"""
+
+    def __init__(self, ctx, finfo, status_var, smembers):
+        super().__init__(ctx.index, finfo)
+        self.ctx = ctx
+        self.status_var = status_var
+        self.smembers = smembers
+        self.appends = []
+
+    def domain(self, text):
+        return self.smembers if text == self.status_var else None
+
+    def truthy(self, v):
+        return True
+
+    def const(self, expr, state):
+        t = ast.unparse(expr)
+        if t in state.vars:
+            return state.vars[t]
+        try:
+            v = self.ctx.ev.eval(expr, self.module)
+        except CantEval:
+            return None
+        if isinstance(v, EnumVal):
+            return frozenset([v.member])
+        if isinstance(v, (tuple, list, set, frozenset)) and all(isinstance(x, EnumVal) for x in v):
+            return frozenset(x.member for x in v)
+        return None
+
+    def assign(self, target_text, value_expr, state):
+        return None
+
+    def may_raise(self, node, state):
+        return []
+
+    def effect(self, node, state):
+        if isinstance(node, tuple):
+            return state
+        for c in _calls(node):
+            if isinstance(c.func, ast.Attribute) and c.func.attr in ("append", "add"):
+                self.appends.append((c, state.vars.get(self.status_var, frozenset(self.smembers))))
+                state = state.with_fact("appended", True)
+        return state
+
+
+def rule_prerequisites(ctx, r):
+    idx = ctx.index
+    outer, inner, sem, rows = explore_schedule(ctx)
+    con = f"{inner.module.relpath}::{inner.qual}::dependency-loop"
+    lp = sem.dep_loop
+    if lp is None:
+        r.violation(con, "loop over all dependencies of the target not found", inner.where)
+        return
+    smembers = enum_members(idx, idx.cls("gwf.core:Status"))
+    depvar = lp.target.id if isinstance(lp.target, ast.Name) else None
+    # status variable: assigned from the memoised scheduling of the loop variable
+    status_var = None
+    callee_name = None
+    for st in lp.body:
+        if isinstance(st, ast.Assign) and isinstance(st.targets[0], ast.Name) and isinstance(st.value, ast.Call) and isinstance(st.value.func, ast.Name) \
+                and len(st.value.args) == 1 and dotted(st.value.args[0]) == depvar:
+            status_var = st.targets[0].id
+            callee_name = st.value.func.id
+    if status_var is None:
+        r.violation(con, "the loop does not take the scheduled status of each dependency from the memoised scheduler", loc(lp, inner.module))
+        return
+    brk = [b for b in ast.walk(lp) if isinstance(b, (ast.Break, ast.Continue, ast.Return))]
+    r.check(not brk, con + "::complete", "loop has no break/continue/return", "the dependency loop can stop early: later dependencies are neither decided nor listed",
+            loc(lp, inner.module))
+    dsem = DepLoopSem(ctx, inner, status_var, smembers)
+    ex = Explorer(dsem)
+    ex.block(lp.body, State())
+    want = frozenset(smembers) - {"COMPLETED"}
+    if not dsem.appends:
+        r.violation(con, "no dependency is ever added to the prerequisite list", loc(lp, inner.module))
+        return
+    got = frozenset().union(*[d for _c, d in dsem.appends])
+    vals_ok = all(c.args and dotted(c.args[0]) == depvar for c, _d in dsem.appends)
+    lst_ok = all(dotted(c.func.value) in sem.lists for c, _d in dsem.appends)
+    if got != want:
+        miss, extra = sorted(want - got), sorted(got - want)
+        r.violation(con + "::states", "a dependency becomes a prerequisite for scheduled statuses "
+                    f"{sorted(got)}; the property requires exactly the not-complete ones {sorted(want)}"
+                    + (f" (missing {miss}: such a dependency is submitted in this run or in flight, but the target would not wait for it)" if miss else "")
+                    + (f" (extra {extra}: a complete dependency has no job to wait for)" if extra else ""), loc(lp, inner.module))
+    else:
+        r.ok(con + "::states", f"dependency appended iff its scheduled status is in {sorted(want)}", loc(lp, inner.module))
+    r.check(vals_ok and lst_ok, con + "::element", "the dependency itself is appended to the list later passed to submit",
+            "what is appended is not the dependency target (or goes to another list)", loc(lp, inner.module))
+    # SUBMITTED_STATES constant itself
+    try:
+        ss = ctx.ev.eval_global(SCHED, "SUBMITTED_STATES")
+        got2 = frozenset(x.member for x in ss)
+        r.check(got2 == want, "src/gwf/scheduling.py::SUBMITTED_STATES", "== all Status members but COMPLETED",
+                f"SUBMITTED_STATES = {sorted(got2)} differs from all-but-COMPLETED {sorted(want)}", "src/gwf/scheduling.py:10")
+    except Exception:
+        r.info("src/gwf/scheduling.py::SUBMITTED_STATES", "constant not present as a plain table (the loop evaluation above decides)")
+    return callee_name
+
+
+def rule_memo(ctx, r, wrapper_name):
+    idx = ctx.index
+    outer, inner, sem, rows = explore_schedule(ctx)
+    ocon = f"{outer.module.relpath}::{outer.qual}"
+    # who calls the decision function
+    callers = []
+    for f in [outer] + list(outer.nested.values()):
+        for n in walk_no_nested(f.node):
+            if isinstance(n, ast.Call) and isinstance(n.func, ast.Name) and n.func.id == inner.name:
+                callers.append((f, n))
+    wrapper = outer.nested.get(wrapper_name) if wrapper_name else None
+    if wrapper is None:
+        # memoisation by decorator is an accepted idiom
+        decos = [d for d in inner.decorator_names() if d and (d.endswith("lru_cache") or d.endswith("cache"))]
+        unbounded = False
+        for d in inner.node.decorator_list:
+            if isinstance(d, ast.Call):
+                for kw in d.keywords:
+                    if kw.arg == "maxsize" and isinstance(kw.value, ast.Constant) and kw.value.value is None:
+                        unbounded = True
+            elif (dotted(d) or "").endswith("cache") and not (dotted(d) or "").endswith("lru_cache"):
+                unbounded = True
+        r.check(bool(decos) and unbounded, ocon + "::memo", "decision function memoised by an unbounded cache decorator",
+                "the decision function is not memoised (no cache guard, no unbounded cache decorator): a shared dependency is decided - and submitted - once per dependent",
+                inner.where)
+        return
+    wcon = f"{wrapper.module.relpath}::{wrapper.qual}"
+    only_wrapper = callers and all(f.key == wrapper.key for f, _n in callers)
+    r.check(only_wrapper, ocon + "::who-may-call", f"the decision function is called only by the memo wrapper {wrapper.name}",
+            f"the decision function is called directly from {[f.qual for f, _ in callers if f.key != wrapper.key] or 'nowhere'}, bypassing the memo: "
+            "a target can be submitted more than once", inner.where)
+    tparam = wrapper.positional_params()[0]
+    guard = store = ret = False
+    cache_name = None
+    for n in walk_no_nested(wrapper.node):
+        if isinstance(n, ast.If) and isinstance(n.test, ast.Compare) and isinstance(n.test.ops[0], ast.NotIn) and dotted(n.test.left) == tparam:
+            cache_name = dotted(n.test.comparators[0])
+            for st in n.body:
+                if isinstance(st, ast.Assign) and ast.unparse(st.targets[0]) == f"{cache_name}[{tparam}]" and isinstance(st.value, ast.Call) \
+                        and isinstance(st.value.func, ast.Name) and st.value.func.id == inner.name and dotted(st.value.args[0]) == tparam:
+                    guard = store = True
+        if isinstance(n, ast.Return) and cache_name and ast.unparse(n.value) == f"{cache_name}[{tparam}]":
+            ret = True
+    r.check(guard and store and ret, wcon, "decides a target only if it is not in the cache, stores and returns the cached status",
+            "the memo wrapper does not guard the decision by `target not in cache` / store / return the cached value: targets are decided (and submitted) repeatedly",
+            wrapper.where)
+    # endpoints loop and returned map
+    loop_ok = False
+    for n in walk_no_nested(outer.node):
+        if isinstance(n, ast.For) and "endpoints" in ast.unparse(n.iter) and not any(isinstance(x, ast.IfExp) for x in ast.walk(n.iter)):
+            for c in _calls(n):
+                if isinstance(c.func, ast.Name) and c.func.id == wrapper.name and dotted(c.args[0]) == dotted(n.target):
+                    loop_ok = True
+    ep = outer.positional_params()[0]
+    r.check(loop_ok, ocon + "::endpoints", "every requested endpoint is scheduled through the memo wrapper",
+            "schedule() does not enter the scheduler from every requested endpoint", outer.where)
+    ret_cache = any(isinstance(n, ast.Return) and dotted(n.value) == cache_name for n in walk_no_nested(outer.node))
+    r.check(ret_cache, ocon + "::result", "returns the status map of the visited cone", "schedule() does not return the status map it built", outer.where)
+
+
+def rule_cone_selection(ctx, r):
+    idx = ctx.index
+    for key, what in (("gwf.plugins.run:run", "run"), ("gwf.plugins.touch:touch", "touch")):
+        f = idx.func(key)
+        con = f"{f.module.relpath}::{f.qual}::endpoints"
+        tparam = "targets"
+        sel = None
+        for n in walk_no_nested(f.node):
+            if isinstance(n, ast.Assign) and isinstance(n.targets[0], ast.Name) and n.targets[0].id == "endpoints":
+                sel = n.value
+        if sel is None:
+            # maybe passed inline
+            for c in _calls(f.node):
+                if idx.canon(c.func, f.module) in ("gwf.scheduling.submit_workflow", "gwf.plugins.touch.touch_workflow") and c.args:
+                    sel = c.args[0]
+        ok = False
+        why = "endpoint selection not found"
+        if isinstance(sel, ast.IfExp):
+            t = sel.test
+            body_ok = isinstance(sel.body, ast.Call) and idx.canon(sel.body.func, f.module) == "gwf.filtering.filter_names" and \
+                len(sel.body.args) == 2 and dotted(sel.body.args[1]) == tparam and dotted(sel.body.args[0]) == "graph"
+            else_ok = ast.unparse(sel.orelse) == "graph.endpoints()"
+            if dotted(t) == tparam and body_ok and else_ok:
+                ok = True
+            elif isinstance(t, ast.UnaryOp) and isinstance(t.op, ast.Not) and dotted(t.operand) == tparam and \
+                    ast.unparse(sel.body) == "graph.endpoints()" and isinstance(sel.orelse, ast.Call) and idx.canon(sel.orelse.func, f.module) == "gwf.filtering.filter_names":
+                ok = True
+            else:
+                why = f"selection is `{ast.unparse(sel)[:90]}`"
+        elif sel is not None:
+            why = (f"selection is `{ast.unparse(sel)[:90]}`: when patterns are given but match nothing the whole workflow is selected instead of nothing"
+                   if isinstance(sel, ast.BoolOp) else f"selection is `{ast.unparse(sel)[:90]}`")
+        r.check(ok, con, "filter_names(graph, targets) if targets else graph.endpoints()",
+                f"{what}: the cone is not `the targets matching the given patterns, or all endpoints when none are given` ({why})", f.where)
+    # filter_names is exactly NameFilter(patterns).apply(targets)
+    fn = idx.func("gwf.filtering:filter_names")
+    rets = [n for n in walk_no_nested(fn.node) if isinstance(n, ast.Return)]
+    p = fn.positional_params()
+    ok = len(rets) == 1 and ast.unparse(rets[0].value).replace(" ", "") in (f"NameFilter(patterns={p[1]}).apply({p[0]})", f"NameFilter({p[1]}).apply({p[0]})")
+    extra = [n for n in walk_no_nested(fn.node) if isinstance(n, (ast.If, ast.For, ast.While, ast.Try))]
+    r.check(ok and not extra, f"{fn.module.relpath}::{fn.qual}", "filter_names == NameFilter(patterns).apply(targets): run/touch/cancel and status expand patterns identically",
+            "filter_names no longer simply delegates to NameFilter: `gwf run PATTERN` and `gwf status PATTERN` can select different targets", fn.where)
+    nf = idx.func("gwf.filtering:NameFilter.apply")
+    txt = ast.unparse(nf.node)
+    uses_fnmatch = any(idx.canon(c.func, nf.module) in ("fnmatch.filter", "fnmatch.fnmatch", "fnmatch.fnmatchcase") for c in _calls(nf.node)
+                       if isinstance(c.func, (ast.Name, ast.Attribute)))
+    by_name = ".name" in txt
+    all_patterns = "self.patterns" in txt
+    r.check(uses_fnmatch and by_name and all_patterns, f"{nf.module.relpath}::{nf.qual}", "fnmatch of every pattern on target names, mapped back by name",
+            "NameFilter.apply does not select by fnmatch of every pattern against the target names", nf.where)
+    # submit_workflow hands the endpoints to schedule
+    sw = idx.func("gwf.scheduling:submit_workflow")
+    ok = False
+    for c in _calls(sw.node):
+        if isinstance(c.func, ast.Name) and c.func.id == "schedule" and c.args and dotted(c.args[0]) == sw.positional_params()[0]:
+            ok = True
+    r.check(ok, f"{sw.module.relpath}::{sw.qual}", "schedule(endpoints, ...) receives the selected endpoints unchanged",
+            "submit_workflow does not pass the selected endpoints to schedule()", sw.where)
+
+
+def rule_id_lookup(ctx, r):
+    idx = ctx.index
+    sub = idx.func("gwf.backends.base:TrackingBackend.submit")
+    con = f"{sub.module.relpath}::{sub.qual}"
+    p = sub.positional_params()
+    deps_p = p[2]
+    comp = None
+    ids_var = None
+    for n in walk_no_nested(sub.node):
+        if isinstance(n, ast.Assign) and isinstance(n.value, (ast.ListComp,)) and isinstance(n.targets[0], ast.Name):
+            comp, ids_var = n.value, n.targets[0].id
+    ok = False
+    if comp is not None and len(comp.generators) == 1:
+        g = comp.generators[0]
+        v = g.target.id if isinstance(g.target, ast.Name) else None
+        ok = dotted(g.iter) == deps_p and not g.ifs and ast.unparse(comp.elt) == f"self._tracked_jobs[{v}.name]"
+    r.check(ok, con + "::ids", "every prerequisite target is translated to the job id tracked under its name (no filter)",
+            "the prerequisite targets are not all translated to their tracked job ids (filtered, sliced or looked up by another key)", sub.where)
+    passed = False
+    for c in _calls(sub.node):
+        if isinstance(c.func, ast.Attribute) and c.func.attr == "submit_target":
+            passed = len(c.args) >= 2 and dotted(c.args[0]) == p[1] and dotted(c.args[1]) == ids_var or \
+                any(k.arg in ("dependencies", "dependency_ids") and dotted(k.value) == ids_var for k in c.keywords)
+    r.check(passed, con + "::pass", "the whole id list is handed to ops.submit_target(target, ids)",
+            "ops.submit_target does not receive the target and the complete list of prerequisite ids", sub.where)
 
 
 def run(ctx):
-    raise AnalysisError("rules for C02 not implemented yet")
+    r1 = ctx.rule("R1", "decision table of the scheduler: 6 backend states x dependencies pending x stale -> submits, shown status")
+    rule_decision_table(ctx, r1)
+    r1b = ctx.rule("R1b", "one submit per decision, nothing evaluated after it, dependencies decided first on every path", min_instances=5)
+    rule_submit_discipline(ctx, r1b)
+    r2 = ctx.rule("R2", "prerequisites = direct dependencies whose scheduled status is not complete", min_instances=3)
+    wrapper_name = rule_prerequisites(ctx, r2)
+    r3 = ctx.rule("R3", "each target is decided once (memo) and the scheduler is entered from every requested endpoint", min_instances=3)
+    rule_memo(ctx, r3, wrapper_name)
+    r4 = ctx.rule("R4", "the cone is the requested patterns (default all endpoints); patterns expand identically everywhere", min_instances=4)
+    rule_cone_selection(ctx, r4)
+    r5 = ctx.rule("R5", "prerequisite targets are translated to the tracked job ids by name, all of them", min_instances=2)
+    rule_id_lookup(ctx, r5)
